@@ -1,4 +1,4 @@
 SPECIFICATION Spec
-CONSTANTS Proto = "http"  NoneOK = FALSE  AuthFirst = FALSE  KeepBuffered = TRUE  Cut = FALSE
+CONSTANTS Proto = "http"  NoneOK = FALSE  AuthFirst = FALSE  KeepBuffered = TRUE  SharedBuf = FALSE  Cut = FALSE
 INVARIANT NoViolation
 CHECK_DEADLOCK FALSE
